@@ -4,6 +4,8 @@ import DendroModel.Theory.C10More
 import DendroModel.Theory.C10Ext
 import DendroModel.Theory.C10Esc
 import DendroModel.Theory.C10Text
+import DendroModel.Theory.C10Kw
+import DendroModel.Gen.C10Kernels
 /-! C10 — property theorems about the namespace state machine `DendroModel.C10.step` (the definitions the driver
 `drv_c10` runs).  `Aux.WInv w` is the invariant of a world: every namespace satisfies `Aux.Inv` (member list
 duplicate-free; members = keys of the taxon→index map; every index below the counter; the two index maps inverse
@@ -562,42 +564,68 @@ theorem lookup_spec (s : NS) (lab : Nat → String) (c : Option Bool) (l : Strin
   · simp [NS.lookupFirst, scanFirst_eq]
 
 /-- what "matches" means: equality of the labels, or of their lower-cased forms when the effective setting is
-case-insensitive.  "Lower-cased" is the model's `pyLower`, which folds ASCII and Latin-1 letters only (e.g.
-`pyLower "İ" = "İ"`); that it equals CPython's `str.lower` is not proved but tested, on every label the generators
-produce, through the driver op `lower` — labels outside that repertoire are outside the model. -/
+case-insensitive.  "Lower-cased" is the model's `pyLower`: `str.lower` on all of Unicode over the tables regenerated from the
+running interpreter (`Gen/C10Lower.lean`), Final_Sigma rule and `İ` included; that it equals CPython's `str.lower` is not
+proved but tested, on every label the generators produce (ASCII, Latin-1, Greek with final sigma, dotted/dotless i, titlecase
+digraphs, Cyrillic, CJK, combining marks), through the driver op `lower`. -/
 theorem labelMatches_iff (lab : Nat → String) (cs : Bool) (l : String) (t : Nat) :
     labelMatches lab cs l t = true ↔ (if cs = true then l = lab t else pyLower l = pyLower (lab t)) := by
-  unfold labelMatches; cases cs <;> simp
+  unfold labelMatches labelMatchesO; cases cs <;> simp [pyStr]
 
-/-! ### the scope of case-insensitive matching -/
+/-- taxa without a label (`Taxon()`, label `None`) at the level of the comparison kernel: an unlabelled member matches no query
+string, under either case setting (in particular not `"none"`); the query `None` matches case-sensitively exactly the unlabelled
+members and case-insensitively the members whose label folds like `"None"`; on labelled taxa and string queries the kernel is the
+machine's `labelMatches`; and an unlabelled taxon is rendered as the empty token -/
+theorem unlabelled_spec (lab : Nat → String) (cs : Bool) (q : String) (tl : Option String) (l : String) (t : Nat) (ps qu : Bool) :
+    labelMatchesO cs (some q) none = false ∧
+    labelMatchesO true none tl = tl.isNone ∧
+    labelMatchesO false none (some l) = (pyLower "None" == pyLower l) ∧
+    labelMatchesO false none none = false ∧
+    labelMatchesO cs (some q) (some (lab t)) = labelMatches lab cs q t ∧
+    escapeTokenO ps qu none = "" ∧ escapeTokenO ps qu (some l) = escapeToken ps qu l := by
+  refine ⟨?_, ?_, rfl, rfl, rfl, rfl, rfl⟩
+  · cases cs <;> simp [labelMatchesO]
+  · cases tl <;> simp [labelMatchesO]
 
-/-- what the model's case folding is, made explicit.  On ASCII/Latin-1 characters it is the table `A`–`Z`, `À`–`Þ`
-(without `×`) ↦ +32; on every other character it is the identity; it is idempotent (so "same lower-cased form" is an
-equivalence on labels).  Labels are strings (`None` labels do not exist in the model), and the agreement with CPython's
-`str.lower` is claimed — and tested on every generated label — for `InScope` labels only. -/
-theorem case_folding_scope :
-    (∀ n : Fin 256, lowerChar (Char.ofNat n) =
-      Char.ofNat (if (65 ≤ n.val ∧ n.val ≤ 90) ∨ (192 ≤ n.val ∧ n.val ≤ 222 ∧ n.val ≠ 215) then n.val + 32 else n.val)) ∧
-    (∀ c : Char, 256 ≤ c.toNat → lowerChar c = c) ∧
-    (∀ l : String, pyLower (pyLower l) = pyLower l) ∧
-    (∀ l : String, (pyLower l).toList = l.toList.map lowerChar) :=
-  ⟨lowerChar_latin1, lowerChar_out_of_scope, pyLower_idem, pyLower_toList⟩
+set_option maxRecDepth 100000 in
+example : labelMatchesO false none (some "NONE") = true ∧ labelMatchesO false (some "none") none = false ∧
+    labelMatchesO true none none = true := by decide
 
-/-- outside that scope the model does no folding at all: for labels and queries made of non-Latin-1 characters only, a
-case-insensitive lookup is the case-sensitive one (CPython folds e.g. `Σ`; such labels are outside the correspondence) -/
-theorem out_of_scope_lookup (lab : Nat → String) (l : String) (t : Nat) (hl : ∀ c ∈ l.toList, 256 ≤ c.toNat)
-    (ht : ∀ c ∈ (lab t).toList, 256 ≤ c.toNat) : labelMatches lab false l t = labelMatches lab true l t := by
-  simp [labelMatches, pyLower_out_of_scope l hl, pyLower_out_of_scope (lab t) ht]
+/-! ### the case folding -/
 
-/-- in scope, a case-insensitive match is exactly equality of the character-wise folded labels -/
-theorem in_scope_match (lab : Nat → String) (l : String) (t : Nat) :
-    labelMatches lab false l t = true ↔ l.toList.map lowerChar = (lab t).toList.map lowerChar := by
+/-- on ASCII / Latin-1 the case folding is the closed form: `A`–`Z`, `À`–`Þ` (without `×`) ↦ +32, every other character
+stays; for labels over that repertoire it acts character by character, keeps the label in the repertoire and is idempotent (so
+"same lower-cased form" is an equivalence on such labels).  `None` labels do not exist in the model. -/
+theorem case_folding_latin1 :
+    (∀ n : Fin 256, lowerCp n.val =
+      [if (65 ≤ n.val ∧ n.val ≤ 90) ∨ (192 ≤ n.val ∧ n.val ≤ 222 ∧ n.val ≠ 215) then n.val + 32 else n.val]) ∧
+    (∀ l : String, InScope l → (pyLower l).toList = l.toList.map latin1Lower) ∧
+    (∀ l : String, InScope l → InScope (pyLower l)) ∧
+    (∀ l : String, InScope l → pyLower (pyLower l) = pyLower l) :=
+  ⟨lowerCp_latin1_table, pyLower_toList_latin1, inScope_pyLower, pyLower_idem_latin1⟩
+
+/-- beyond Latin-1 the folding is the interpreter's: ranges with an offset, the one character that lowers to two (`İ`), and the
+one context rule — a capital sigma becomes `ς` exactly when a cased letter precedes it and none follows (case-ignorable
+characters such as the apostrophe skipped on both sides) -/
+theorem case_folding_wide (pre post : List Nat) :
+    lowerGo pre (C10Lower.capitalSigma :: post) =
+      (if wordEdgeCased pre && !wordEdgeCased post then C10Lower.finalSigma else C10Lower.smallSigma)
+        :: lowerGo (C10Lower.capitalSigma :: pre) post := by
+  simp [lowerGo, sigmaFinal]
+
+set_option maxRecDepth 100000 in
+example : pyLower "ΑΣ" = "ας" ∧ pyLower "ΣΑ" = "σα" ∧ pyLower "Σ" = "σ" ∧ pyLower "aΣ'b" = "aσ'b" ∧ pyLower "İ" = "i̇" ∧
+    pyLower "ǅ" = "ǆ" ∧ pyLower "Я中" = "я中" := by decide
+
+/-- for labels over ASCII / Latin-1, a case-insensitive match is exactly equality of the character-wise folded labels -/
+theorem in_scope_match (lab : Nat → String) (l : String) (t : Nat) (hl : InScope l) (ht : InScope (lab t)) :
+    labelMatches lab false l t = true ↔ l.toList.map latin1Lower = (lab t).toList.map latin1Lower := by
   rw [labelMatches_iff]
   simp only [Bool.false_eq_true, if_false]
-  rw [← String.toList_inj, pyLower_toList, pyLower_toList]
+  rw [← String.toList_inj, pyLower_toList_latin1 l hl, pyLower_toList_latin1 _ ht]
 
-example : InScope "Éa×" ∧ pyLower "ÉA×" = "éa×" ∧ pyLower "Σ" = "Σ" := by
-  refine ⟨by unfold InScope; decide, by decide, by decide⟩
+example : InScope "Éa×" ∧ pyLower "ÉA×" = "éa×" := by
+  refine ⟨by unfold InScope; decide, by decide⟩
 
 /-- `get_taxa`: with `first_match_only`, the first match of each label that has one, in label order (repeats kept);
 otherwise every member matching some label, each once, ordered by first matching label and then by membership -/
@@ -1276,6 +1304,11 @@ theorem other_namespaces_untouched (w : World) (op : Op) (n : Nat) (x : NS) (hx 
         by_cases h : t < w.labels.length
         · simp only [hr, h]; exact hx
         · simp only [hr, h]; exact hx
+      · rename_i cs items
+        rw [step_mknsImm w cs items hr]
+        by_cases he : items = []
+        · rw [if_pos he]; simp only; rw [List.getElem?_append_left hlt]; exact hx
+        · rw [if_neg he]; exact hx
     | some n' =>
       have hne : n' ≠ n := fun e => hop (by rw [hn, e])
       rw [step_ns hr hn]
@@ -1294,5 +1327,260 @@ example :
     WInv w ∧ (w.nss[0]?.map (·.taxa)) = some [1, 2, 3] ∧
       (step w (.nwk 0 2 false true)).2 matches .str "((B), (C, D));" := by
   refine ⟨inv_reachable _, by decide, by decide⟩
+
+/-! ## extension round: custom sort keys -/
+
+/-- `sort(key=f, reverse=rev)` with an arbitrary key function rearranges the member list … -/
+theorem sort_key_perm {κ : Type} (le : κ → κ → Bool) (key : Nat → κ) (rev : Bool) (l : List Nat) :
+    (sortByK le key rev l).Perm l := sortByK_perm le key rev l
+
+theorem sort_key_sorted {κ : Type} {le : κ → κ → Bool} (hle : TotalPreorder le) (key : Nat → κ) (rev : Bool) (l : List Nat) :
+    (sortByK le key rev l).Pairwise (ordByK le key rev) := sortByK_sorted hle key rev l
+
+theorem sort_key_stable {κ : Type} [DecidableEq κ] {le : κ → κ → Bool} (hle : TotalPreorder le) (key : Nat → κ) (rev : Bool)
+    (k : κ) (l : List Nat) :
+    (sortByK le key rev l).filter (fun t => decide (key t = k)) = l.filter (fun t => decide (key t = k)) :=
+  sortByK_stable hle key rev k l
+
+example : TotalPreorder pairLe ∧
+    sortByK pairLe (fun t => ([(2, "bb"), (1, "z"), (2, "ab"), (1, "z")] : List (Nat × String)).getD t (0, "")) true [0, 1, 2, 3] = [0, 2, 1, 3] :=
+  ⟨pairLe_preorder, by decide⟩
+
+theorem sort_key_kinds (w : World) (s : NS) (k : SortKey) (rev : Bool) (l : List Nat) :
+    ∃ (κ : Type) (_ : DecidableEq κ) (le : κ → κ → Bool) (key : Nat → κ),
+      TotalPreorder le ∧ sortWith w s k rev l = sortByK le key rev l := by
+  cases k
+  · exact ⟨String, inferInstance, strLe, w.lab, strLe_preorder, rfl⟩
+  · exact ⟨String, inferInstance, strLe, fun t => pyLower (w.lab t), strLe_preorder, rfl⟩
+  · exact ⟨Nat, inferInstance, Nat.ble, fun t => (w.lab t).length, natBle_preorder, rfl⟩
+  · exact ⟨Nat, inferInstance, Nat.ble, fun t => (s.t2a.get t).getD 0, natBle_preorder, rfl⟩
+  · exact ⟨Nat × String, inferInstance, pairLe, fun t => ((w.lab t).length, w.lab t), pairLe_preorder, rfl⟩
+  · exact ⟨Nat, inferInstance, Nat.ble, fun _ => 0, natBle_preorder, rfl⟩
+
+theorem sort_key_ops_spec (w : World) (n : Nat) (s : NS) (hs : w.nss[n]? = some s) (k : SortKey) (rev : Bool) :
+    step w (.sortk n k rev) = (w.setNs n { s with taxa := sortWith w s k rev s.taxa }, .ok) ∧
+    (sortWith w s k rev s.taxa).Perm s.taxa := by
+  refine ⟨?_, sortWith_perm w s k rev s.taxa⟩
+  rw [step_ns (n := n) rfl rfl, hs]; rfl
+
+theorem sort_default_key (w : World) (n : Nat) (rev : Bool) : step w (.sort n rev) = step w (.sortk n .label rev) := by
+  rw [step_ns (n := n) rfl rfl, step_ns (n := n) rfl rfl]
+  cases w.nss[n]? with
+  | none => rfl
+  | some s => simp only [stepNs, sortWith, sortBy_eq_sortByK]
+
+theorem sort_const_identity (w : World) (s : NS) (rev : Bool) (l : List Nat) : sortWith w s .const rev l = l := by
+  simp only [sortWith]
+  induction l with
+  | nil => rfl
+  | cons x xs ih =>
+    simp only [sortByK, List.foldr_cons] at *
+    rw [ih]
+    cases xs with
+    | nil => rfl
+    | cons y ys => cases rev <;> simp [insertByK, Nat.ble]
+
+theorem sort_acc_bit_order (w : World) (s : NS) (hi : Inv s) (rev : Bool) :
+    (sortWith w s .acc rev s.taxa).Pairwise (fun a b => ∃ i j, s.t2a.get a = some i ∧ s.t2a.get b = some j ∧
+      (if rev then j < i else i < j)) := by
+  have hs := sortByK_sorted natBle_preorder (fun t => (s.t2a.get t).getD 0) rev s.taxa
+  have hp := sortByK_perm Nat.ble (fun t => (s.t2a.get t).getD 0) rev s.taxa
+  have hn : (sortByK Nat.ble (fun t => (s.t2a.get t).getD 0) rev s.taxa).Nodup := hp.nodup_iff.2 hi.nodup
+  simp only [sortWith]
+  have := List.Pairwise.and hs hn
+  refine this.imp_of_mem ?_
+  intro a b ha hb ⟨hab, hne⟩
+  have ha' := (hi.dom a).1 (hp.mem_iff.1 ha)
+  have hb' := (hi.dom b).1 (hp.mem_iff.1 hb)
+  obtain ⟨i, hi'⟩ := Option.isSome_iff_exists.1 ha'
+  obtain ⟨j, hj'⟩ := Option.isSome_iff_exists.1 hb'
+  refine ⟨i, j, hi', hj', ?_⟩
+  have hij : i ≠ j := fun e => hne (inv_injective hi hi' (e ▸ hj'))
+  unfold ordByK at hab
+  simp only [hi', hj', Option.getD_some] at hab
+  cases rev
+  · simp only [Bool.false_eq_true, if_false] at hab ⊢
+    have := Nat.le_of_ble_eq_true hab; omega
+  · simp only [if_true] at hab ⊢
+    have := Nat.le_of_ble_eq_true hab; omega
+
+example : (exec World.init [.mkns false [.lab "b", .lab "A", .lab "a"], .rm 0 0, .new 0 "B", .sort 0 false, .sortk 0 .acc true]).nss.map (·.taxa)
+    = [[3, 2, 1]] := by decide
+
+/-! ## extension round: keyword forms and further entry points -/
+
+/-- `bitmask_taxa_list(m, index=k)` reads the mask as if it were shifted left by `k`: the same answer as
+`bitmask_taxa_list(m << k)`, and no change of the world -/
+theorem btl_index_spec (w : World) (n : Nat) (s : NS) (hs : w.nss[n]? = some s) (m idx : Nat) :
+    step w (.btli n m idx) = (w, exceptOut .ids (btl s.a2t m idx)) ∧
+    step w (.btli n m idx) = step w (.btl n (m <<< idx)) ∧ step w (.btli n m 0) = step w (.btl n m) := by
+  have h1 : step w (.btli n m idx) = (w, exceptOut .ids (btl s.a2t m idx)) := by rw [step_at rfl rfl hs]; rfl
+  have h2 : ∀ m', step w (.btl n m') = (w, exceptOut .ids (btl s.a2t m' 0)) := fun m' => by rw [step_at rfl rfl hs]; rfl
+  refine ⟨h1, ?_, ?_⟩
+  · rw [h1, h2, btl_shift]; simp
+  · rw [h2, step_at rfl rfl hs]; rfl
+
+/-- a state the driver produces (A, B, C; A removed): bits 1 and 2 are alive, so `bitmask_taxa_list(3, index=1)` has an answer -/
+example : ∃ s, (exec World.init [.mkns false [.lab "A", .lab "B", .lab "C"], .rm 0 0]).nss[0]? = some s ∧
+    s.a2t.get 1 = some 1 ∧ s.a2t.get 2 = some 2 ∧ (3 : Nat) <<< 1 = 6 := ⟨_, rfl, by decide, by decide, by decide⟩
+
+/-- `taxa_bitmask(**kwargs)`: `taxa=` wins (whatever `labels=`, `is_case_sensitive=`, `first_match_only=` say, the call is
+`taxa_bitmask(taxa=ts)`); with `labels=` alone the taxa are those `get_taxa(labels, is_case_sensitive, first_match_only)` returns
+(for `first_match_only=False` this is `taxa_bitmask(labels=ls)` as before); with neither keyword the call is refused with a
+`TypeError` and nothing changes -/
+theorem tbm_kw_spec (w : World) (n : Nat) (s : NS) (hs : w.nss[n]? = some s) (c : Option Bool) (first : Bool) :
+    (∀ ts labels, step w (.tbmKw n (some ts) labels c first) = step w (.tbm n ts)) ∧
+    (∀ ls, step w (.tbmKw n none (some ls) c first) = step w (.tbm n (s.getTaxa w.lab c first ls []))) ∧
+    (∀ ls, step w (.tbmKw n none (some ls) c false) = step w (.lbm n c ls)) ∧
+    step w (.tbmKw n none none c first) = (w, .err .typeError) := by
+  refine ⟨?_, ?_, ?_, ?_⟩
+  · intro ts labels; rw [step_at rfl rfl hs, step_at rfl rfl hs]; rfl
+  · intro ls; rw [step_at rfl rfl hs, step_at rfl rfl hs]; rfl
+  · intro ls; rw [step_at rfl rfl hs, step_at rfl rfl hs]; rfl
+  · rw [step_at rfl rfl hs]; rfl
+
+/-- members a, B, A (case-insensitive): the first matches of "A" and "b" are `a` and `B` — mask 3, not 7 -/
+example : (step (exec World.init [.mkns false [.lab "a", .lab "B", .lab "A"]]) (.tbmKw 0 none (some ["A", "b"]) none true)).2
+    matches .nat 3 := by decide
+
+/-- `TaxonNamespace(items, is_case_sensitive=cs, is_mutable=False)`: the flag is in force while the iterable is consumed, so only
+the empty iterable is accepted (an empty immutable namespace); otherwise the first item is refused and no namespace is created -/
+theorem ctor_immutable_spec (w : World) (cs : Bool) (items : List Item)
+    (hr : items.all (Item.refOk w.labels.length) = true) :
+    step w (.mknsImm cs items) =
+      if items = [] then ({ w with nss := w.nss ++ [⟨[], [], [], [], 0, false, cs⟩] }, .nat w.nss.length)
+      else (w, .err .immutable) := by
+  rw [step_mknsImm w cs items (by simpa [Op.refsOk] using hr)]; rfl
+
+example : (step World.init (.mknsImm true [.lab "x"])).2 matches .err .immutable := by decide
+
+/-- `TaxonNamespace(other, is_case_sensitive=…, is_mutable=…)`: with `is_mutable=False` a non-empty `other` is refused (nothing
+changes); in every other case the keywords have no effect at all — the result is `TaxonNamespace(other)`, flags of `other` included -/
+theorem copy_kw_spec (w : World) (hw : WInv w) (n : Nat) (s : NS) (hs : w.nss[n]? = some s) (cs mu : Option Bool) :
+    (mu = some false ∧ s.taxa ≠ [] → step w (.copyKw n cs mu) = (w, .err .immutable)) ∧
+    (¬ (mu = some false ∧ s.taxa ≠ []) → step w (.copyKw n cs mu) = step w (.copy n) ∧
+      step w (.copyKw n cs mu) = ({ w with nss := w.nss ++ [s] }, .nat w.nss.length)) := by
+  constructor
+  · intro h; rw [step_copyKw, hs]; simp only; rw [if_pos h]
+  · intro h
+    have : step w (.copyKw n cs mu) = step w (.copy n) := by
+      rw [step_copyKw, step_copy, hs]; simp only; rw [if_neg h]
+    exact ⟨this, by rw [this]; exact copy_bits w hw n s hs⟩
+
+example : (step (exec World.init [.mkns true [.lab "x"]]) (.copyKw 0 (some false) (some false))).2 matches .err .immutable := by decide
+example : (step (exec World.init [.mkns true [.lab "x"]]) (.copyKw 0 (some false) none)).1.nss.map (·.caseSens) = [true, true] := by decide
+
+/-- `taxon_namespace_scoped_copy`: the namespace itself, nothing changes -/
+theorem scoped_copy_spec (w : World) (n : Nat) (s : NS) (hs : w.nss[n]? = some s) : step w (.scopedCopy n) = (w, .nat n) := by
+  rw [step_at rfl rfl hs]; rfl
+
+/-- `label_taxon_map(is_case_sensitive=c)[l]`: the *last* member (in membership order) whose label matches `l` under the effective
+case setting — `None` iff no member matches; so it is the member `get_taxon` returns exactly when at most one member matches -/
+theorem label_map_spec (w : World) (n : Nat) (s : NS) (hs : w.nss[n]? = some s) (c : Option Bool) (l : String) :
+    step w (.ltm n c l) = (w, .optId (s.lookupAll w.lab c l).getLast?) ∧
+    ((s.lookupAll w.lab c l).getLast? = none ↔ s.lookupFirst w.lab c l = none) ∧
+    ((s.lookupAll w.lab c l).length ≤ 1 → (s.lookupAll w.lab c l).getLast? = s.lookupFirst w.lab c l) := by
+  have hl := lookup_spec s w.lab c l
+  refine ⟨?_, ?_, ?_⟩
+  · rw [step_at rfl rfl hs]
+    simp only [stepNs]
+    rw [scanLast_eq, hl.1]
+    cases (s.taxa.filter (labelMatches w.lab (s.effCs c) l)).getLast? <;> rfl
+  · rw [hl.1, hl.2]
+    simp
+  · rw [hl.1, hl.2]
+    intro hlen
+    rw [← List.head?_filter]
+    cases hf : s.taxa.filter (labelMatches w.lab (s.effCs c) l) with
+    | nil => rfl
+    | cons x xs =>
+      rw [hf] at hlen
+      cases xs with
+      | nil => rfl
+      | cons y ys => simp at hlen
+
+example : (step (exec World.init [.mkns false [.lab "a", .lab "B", .lab "A"]]) (.ltm 0 none "a")).2 matches .optId (some 2) := by decide
+
+/-! ## tie A: the closed-form kernels regenerated from the source (`Gen/C10Kernels.lean`) are the model's -/
+
+theorem kernel_taxon_bitmask (i : Nat) : C10Kernels.taxon_bitmask (i : Int) = ((1 <<< i : Nat) : Int) := by
+  simp [C10Kernels.taxon_bitmask, pyShl, Nat.one_shiftLeft]
+
+theorem kernel_all_taxa_bitmask (s : NS) : C10Kernels.all_taxa_bitmask (s.count : Int) = (s.allMask : Int) := by
+  have h : 1 ≤ 2 ^ s.count := Nat.one_le_two_pow
+  simp only [C10Kernels.all_taxa_bitmask, NS.allMask, pyShl, Nat.one_shiftLeft, Int.toNat_natCast, Int.one_mul]
+  rw [Int.natCast_sub h, Int.natCast_pow]
+  rfl
+
+theorem kernel_bitstring (s : NS) (b : Nat) : C10Kernels.bitmask_as_bitstring b s.count = s.bitstring b := by
+  simp [C10Kernels.bitmask_as_bitstring, NS.bitstring, pyRjust, pyBin]
+
+theorem kernel_btl (m idx : Nat) :
+    C10Kernels.btl_continue (m : Int) = decide (m ≠ 0) ∧
+    C10Kernels.btl_take (m : Int) = decide (m % 2 = 1) ∧
+    C10Kernels.btl_next_mask (m : Int) = ((m / 2 : Nat) : Int) ∧
+    C10Kernels.btl_next_index (idx : Int) = ((idx + 1 : Nat) : Int) ∧
+    C10Kernels.btl_default_index = ((0 : Nat) : Int) := by
+  refine ⟨?_, ?_, ?_, ?_, ?_⟩
+  · simp [C10Kernels.btl_continue]
+  · unfold C10Kernels.btl_take
+    have : pyAnd (m : Int) (1 : Int) = ((m &&& 1 : Nat) : Int) := pyAnd_natCast m 1
+    rw [this, Nat.and_one_is_mod]
+    rcases Nat.mod_two_eq_zero_or_one m with h | h <;> simp [h]
+  · simp [C10Kernels.btl_next_mask, pyShr]
+  · simp [C10Kernels.btl_next_index]
+  · rfl
+
+/-- the regenerated pieces of `nexusprocessing.bitmask_as_newick_string` are the model's -/
+theorem kernel_newick (s : NS) (lab : Nat → String) (split bm : Nat) (ps qu : Bool) (l r : List String) :
+    (C10Kernels.nwk_trivial (split : Int) (s.allMask : Int) = decide (split = 0 ∨ split = s.allMask)) ∧
+    (C10Kernels.nwk_left (split : Int) (bm : Int) = decide (split &&& bm ≠ 0)) ∧
+    (Rendering.flat l).text = C10Kernels.nwk_flat_open ++ C10Kernels.nwk_flat_sep.intercalate l ++ C10Kernels.nwk_flat_close ∧
+    (Rendering.sides l r).text = C10Kernels.nwk_sides_open ++ C10Kernels.nwk_sides_sep.intercalate l ++ C10Kernels.nwk_sides_mid
+      ++ C10Kernels.nwk_sides_sep.intercalate r ++ C10Kernels.nwk_sides_close ∧
+    ((s.newick lab split ps qu).2 = .ok (.flat (s.taxa.map fun t => escapeToken ps qu (lab t))) ∨
+      C10Kernels.nwk_trivial (split : Int) (s.allMask : Int) = false) := by
+  refine ⟨?_, ?_, rfl, rfl, ?_⟩
+  · simp [C10Kernels.nwk_trivial, Int.natCast_inj]
+  · unfold C10Kernels.nwk_left
+    rw [pyAnd_natCast]
+    simp
+  · by_cases h : split = 0 ∨ split = s.allMask
+    · left; simp [NS.newick, h]
+    · right
+      simp only [C10Kernels.nwk_trivial]
+      simp at h ⊢
+      omega
+
+/-- the loop of the model's `btl` is the regenerated loop of `bitmask_taxa_list`: continue / take / next mask / next index -/
+theorem kernel_btl_loop (a2t : Map) (m idx : Nat) :
+    btl a2t m idx =
+      if C10Kernels.btl_continue (m : Int) = false then .ok []
+      else if C10Kernels.btl_take (m : Int) = true then
+        (match a2t.get idx with
+          | none => .error .keyError
+          | some t => match btl a2t (C10Kernels.btl_next_mask (m : Int)).toNat (C10Kernels.btl_next_index (idx : Int)).toNat with
+            | .ok r => .ok (t :: r)
+            | .error e => .error e)
+      else btl a2t (C10Kernels.btl_next_mask (m : Int)).toNat (C10Kernels.btl_next_index (idx : Int)).toNat := by
+  have hc : C10Kernels.btl_continue (m : Int) = decide (m ≠ 0) := by simp [C10Kernels.btl_continue]
+  have ht : C10Kernels.btl_take (m : Int) = decide (m % 2 = 1) := by
+    unfold C10Kernels.btl_take
+    have : pyAnd (m : Int) (1 : Int) = ((m &&& 1 : Nat) : Int) := pyAnd_natCast m 1
+    rw [this, Nat.and_one_is_mod]
+    rcases Nat.mod_two_eq_zero_or_one m with h | h <;> simp [h]
+  have hm : (C10Kernels.btl_next_mask (m : Int)).toNat = m / 2 := by simp [C10Kernels.btl_next_mask, pyShr]; omega
+  have hi : (C10Kernels.btl_next_index (idx : Int)).toNat = idx + 1 := by simp [C10Kernels.btl_next_index]
+  rw [hc, ht, hm, hi]
+  rw [btl]
+  by_cases h0 : m = 0
+  · simp [h0]
+  · by_cases h1 : m % 2 = 1
+    · simp only [h0, h1, dite_false, if_true, ne_eq, not_false_eq_true, decide_true, Bool.true_eq_false, if_false]
+      cases a2t.get idx with
+      | none => rfl
+      | some t => cases btl a2t (m / 2) (idx + 1) <;> rfl
+    · simp [h0, h1]
+
 
 end DendroModel.C10
